@@ -476,6 +476,10 @@ class Ref:
         if t is None:
             raise Unsupported("validator without a template descriptor")
         params = sparqlgen.param_values(sg, comp, s)
+        # SHACL-SPARQL pre-binding rules: a validator must not re-bind a pre-bound variable — $this, and the parameters of its component
+        if t["minus"] or t["values"] or t["service"] or (t["nested"] is not None and "this" not in t["nested"]) \
+                or t["asVar"] in ("this", "currentShape", "shapesGraph") or (t["asVar"] is not None and t["asVar"] in params):
+            raise ExpectFailure(t["kind"])
         out = []
 
         def mk(this, value, path, binds):
